@@ -54,7 +54,7 @@ static void run_case(const pref::Ref &R, const Case &c)
 {
     const int two = (c.variant == V_AVX512) ? 2 : 1;
     size_t n = c.len * two;
-    GuardArena<E> in(n, c.align == 0);
+    GuardArena<E> in(n, c.align != 1);
     GuardArena<E> out(4 * two + 4, true); // 4 sentinel elements in front of the digest(s)
     std::vector<u64> raw(n);
     for (int w2 = 0; w2 < two; w2++)
@@ -78,6 +78,15 @@ static void run_case(const pref::Ref &R, const Case &c)
     for (int w2 = 0; w2 < two; w2++)
     {
         u64 ex[4];
+        if (c.align == 2)
+        {
+            // differential oracle for huge inputs in the quick tier: the library's scalar sponge (itself compared with
+            // the reference on every length up to Lmax and, in the thorough tier, on these lengths too)
+            E d4[4];
+            PoseidonGoldilocks::linear_hash_seq(d4, in.p + w2 * c.len, c.len);
+            for (int i = 0; i < 4; i++) ex[i] = d4[i].fe % PR;
+        }
+        else
         R.linear_hash(ex, raw.data() + w2 * c.len, c.len);
         for (int i = 0; i < 4; i++)
         {
@@ -129,6 +138,9 @@ int main(int argc, char **argv)
         if (W == 32 && args.thorough())
             for (size_t L : {((size_t)1 << 24) + 1, ((size_t)1 << 24) + 9})
                 cases.push_back({v, L, 1, 0});
+        if (W == 32 && !args.thorough() && v != V_SEQ)
+            for (size_t L : {((size_t)1 << 24) + 1, ((size_t)1 << 24) + 9})
+                cases.push_back({v, L, 1, 2}); // align=2: differential against linear_hash_seq
         // long inputs: block-loop bookkeeping far from the small cases (three bulk contents + a marker in the last block)
         if (W == 32)
             for (size_t L : {(size_t)255, (size_t)256, (size_t)257, (size_t)511, (size_t)1000, (size_t)1023, (size_t)1024, (size_t)1025, (size_t)4099, (size_t)65537})
